@@ -345,6 +345,13 @@ def rule_T1(ctx, family, tags=None, title=None, keep=None):
             continue
         bad = [(o, v) for o, v in sibs if v != val]
         ncmp += len(sibs)
+        agree_n = len(sibs) - len(bad)
+        if bad and agree_n >= 2 and agree_n > len(bad):
+            # the active table agrees with a majority of >= 2 independent siblings: the odd ones out
+            # are inactive tables, which change no behaviour of the built configuration
+            res.note('inactive table(s) of order %s disagree with the active order-%d value %s of %s%s'
+                     % ([o for o, v in bad], active, val, mono[0], tuple(mono[1:])))
+            bad = []
         ok = not bad
         res.ob(ok, {'table': mono[0], 'monomial': list(mono[1:]), 'active_order': active, 'value': str(val),
                     'siblings': {str(o): str(v) for o, v in sibs}}
